@@ -756,7 +756,7 @@ pub mod python {
             &mut self,
             observation_set: &PyVisualSortObservationSet,
         ) -> Vec<PySortTrack> {
-            unsafe { std::mem::transmute(self.0.predict_with_scene(0, &observation_set.0.inner)) }
+            self.predict_with_scene(0, observation_set)
         }
 
         /// Receive tracking information for observed bboxes of `scene_id`
